@@ -93,8 +93,23 @@ type vfRecTTY struct {
 	calls []string
 }
 
-func (t *vfRecTTY) Write(p []byte) (int, error)      { return t.buf.Write(p) }
-func (t *vfRecTTY) WriteByte(b byte) error           { return t.buf.WriteByte(b) }
+// Like the repository's own terminal (device/tty/vt.go WriteByte), a terminal that is not attached to a
+// console cannot show anything: it refuses the data.
+func (t *vfRecTTY) Write(p []byte) (int, error) {
+	if t.cons == nil {
+		if len(p) == 0 {
+			return 0, nil
+		}
+		return 0, io.ErrClosedPipe
+	}
+	return t.buf.Write(p)
+}
+func (t *vfRecTTY) WriteByte(b byte) error {
+	if t.cons == nil {
+		return io.ErrClosedPipe
+	}
+	return t.buf.WriteByte(b)
+}
 func (t *vfRecTTY) AttachTo(c console.Device)        { t.cons = c; t.calls = append(t.calls, "attach") }
 func (t *vfRecTTY) State() tty.State                 { return t.state }
 func (t *vfRecTTY) SetState(s tty.State)             { t.state = s; t.calls = append(t.calls, fmt.Sprintf("state%d", s)) }
